@@ -9,6 +9,7 @@ from checks import phys
 from refs import reference as ref
 
 ID = 'C15'
+HASHSEED_EVERY = {'quick': 60, 'thorough': 300}     # one case in so many is also run under other string-hash seeds (harness._run_hashseed_invariant)
 BUDGET = {'quick': 600, 'thorough': 50000}
 WALL = {'quick': 150, 'thorough': 3000}
 CHUNK = 6
@@ -47,7 +48,7 @@ def gen(rng, tier, idx):
     sched['poison'] = rng.random() < 0.7
     return dict(kind=kind, P=max(g[0] * g[1] for g in grids), ckw=ckw, grids=grids,
                 chi=rng.choice([0, 1]), adiabatic=rng.random() < 0.75, rseed=rng.randrange(1 << 30),
-                complex_rho=rng.random() < 0.15, twice=rng.random() < 0.4, regrid=rng.random() < 0.4, start=rng.choice(['flux_surface', 'v_parallel', 'poloidal']),
+                complex_rho=rng.random() < 0.15, B=rng.choice([None, None, 1.0, 0.6, 1.7]) if kind == 'pipeline' else None, twice=rng.random() < 0.4, regrid=rng.random() < 0.4, start=rng.choice(['flux_surface', 'v_parallel', 'poloidal']),
                 sched=sched)
 
 
@@ -78,7 +79,7 @@ def run_pipeline(case, tape):
         def rank_fn(comm, rank, alt=alt):
             f, constants = phys.setup_f(comm, ckw, 'v_parallel')
             phys.check_forced(f, g)
-            pipe = phys.Pipeline(comm, f, constants, chi=case['chi'], adiabatic=case['adiabatic'])
+            pipe = phys.Pipeline(comm, f, constants, chi=case['chi'], adiabatic=case['adiabatic'], B=case.get('B'))
             rho, phi, QN = pipe.rho, pipe.phi, pipe.QN
             rho.getAllData()[:] = cm.local(R, rho.getLayout('v_parallel_2d'))
             before = np.array(rho.getAllData(), copy=True)
@@ -143,7 +144,7 @@ def run_pipeline(case, tape):
             # ordering are the implementation's choice - only the round trip and the potential are)
             if phys.relerr(modes, np.fft.fft(R.astype(complex), axis=1)) <= 1e-12:
                 w.probe('modes_equal_unnormalised_fft')
-            want = ref.qn_ref(R, eta, cdict, case['chi'], case['adiabatic'])
+            want = ref.qn_ref(R, eta, cdict, case['chi'], case['adiabatic'], Bfield=case.get('B') or 1.0)
             e = phys.relerr(got, want)
             if not (e <= 1e-9):
                 raise OracleFail('potential-differs', dict(grid=g, relerr=e, chi=case['chi'],
@@ -154,13 +155,13 @@ def run_pipeline(case, tape):
                     raise OracleFail('potential-not-real', dict(grid=g, imag_rel=im))
             if case.get('twice'):
                 got2 = phys.assemble([r['phi2'] for r in results], npts[:3], 'phi (second solve)')
-                e2 = phys.relerr(got2, ref.qn_ref(R2, eta, cdict, case['chi'], case['adiabatic']))
+                e2 = phys.relerr(got2, ref.qn_ref(R2, eta, cdict, case['chi'], case['adiabatic'], Bfield=case.get('B') or 1.0))
                 if not (e2 <= 1e-9):
                     raise OracleFail('potential-differs', dict(grid=g, relerr=e2, why='second solve on the same solver and grids'))
             pr = {'grid_%dx%d' % (g[0], g[1]): 1}
             if results[0].get('phi3') is not None:
                 got3 = phys.assemble([r['phi3'] for r in results], npts[:3], 'phi (other process grid, same solver)')
-                e3 = phys.relerr(got3, ref.qn_ref(R2, eta, cdict, case['chi'], case['adiabatic']))
+                e3 = phys.relerr(got3, ref.qn_ref(R2, eta, cdict, case['chi'], case['adiabatic'], Bfield=case.get('B') or 1.0))
                 if not (e3 <= 1e-9):
                     raise OracleFail('potential-differs', dict(grid=g, relerr=e3,
                                                                why='same solver used on grids over another process grid'))
@@ -182,6 +183,8 @@ def run_pipeline(case, tape):
                   'ntheta_even' if npts[1] % 2 == 0 else 'ntheta_odd': 1}
         if case.get('twice'):
             probes['solver_reused'] = 1
+        if case.get('B') not in (None, 1.0):
+            probes['B_not_one'] = 1
         return dict(nontrivial=case['P'] > 1, probes=probes)
     return M.finish(oracle=oracle)
 
